@@ -103,6 +103,19 @@ def gen_cases(tier, rng):
                    (['-o', '-v'], 'b0=1;b1=0;i0=0;s0=s-'), (['-o', '-q', '-n', '3'], 'b0=0;b1=1;i0=3;s0=s-'),
                    (['-v', '-o'], 'b0=1;b1=0;i0=0;s0=s-'), (['-o', '-f', 'a', '-v'], 'b0=1;b1=0;i0=0;s0=s61')):
         cases.append(sgb + A.argv_tok(w) + ' exp:%s mut:%s' % (exp, 'unknown-short' if exp == 'reject' else 'none'))
+    # rules on the sub-group argument itself: mandatory, cardinality
+    for rule, lines in (('man', ((['-v'], 'reject'), ([], 'reject'), (['-n', '3'], 'reject'),
+                                 (['-o', '-f', 'x'], 'b0=0;b1=0;i0=0;s0=s78'), (['-v', '--output', '-n', '2'], 'b0=1;b1=0;i0=2;s0=s-'))),
+                        ('card=range~2~3', ((['-o', '-f', 'x'], 'reject'), (['-o', '-v'], 'reject'),
+                                            (['-o', '-f', 'x', '-o', '-v'], 'b0=1;b1=0;i0=0;s0=s78'),
+                                            (['-o', '-o', '-o', '-o'], 'reject'), (['-v'], 'b0=1;b1=0;i0=0;s0=s-'))),
+                        ('card=max~1', ((['-o', '-o'], 'reject'), (['-o', '-q', '--output'], 'reject'), (['-o', '-q'], 'b0=0;b1=1;i0=0;s0=s-'))),
+                        ('man/card=exact~2', ((['-o'], 'reject'), (['-o', '-o', '-q'], 'b0=0;b1=1;i0=0;s0=s-'), (['-v'], 'reject'))),
+                        ('card=exact~1', ((['-o', '-o'], 'reject'), (['-o', '-n', '5'], 'b0=0;b1=0;i0=5;s0=s-'),
+                                          (['-v'], 'b0=1;b1=0;i0=0;s0=s-')))):
+        for w, exp in lines:
+            cases.append('H:f=0 arg:v:b0:init=0 arg:n:i0: S:o,output:f=0:%s arg:f,file:s0: arg:q:b1:init=0 %s exp:%s mut:%s'
+                         % (rule, A.argv_tok(w), exp, 'drop-mandatory' if exp == 'reject' else 'none'))
     # the key of a sub-group argument is taken by a plain argument of the same handler: the definition is refused
     for plain, sub in (('o,output', 'o'), ('output', 'output'), ('o', 'o,output'), ('o,output', 'x,output')):
         cases.append('H:f=0 arg:%s:b0:init=0 S:%s:f=0 arg:q:b1:init=0 %s exp:reject mut:duplicate' % (plain, sub, A.argv_tok(['-o'])))
